@@ -214,7 +214,7 @@ func fanBytes(m int, seed int64, variant int) []int {
 }
 
 // fanBase: concrete ops that build a root with m children, optionally grown to `from` first and deleted down.
-func fanBase(m, from int, seed int64, variant int, low bool) [][2]int {
+func fanBase(m, from int, seed int64, variant int, low int) [][2]int {
 	n := m
 	if from > m {
 		n = from
@@ -224,10 +224,16 @@ func fanBase(m, from int, seed int64, variant int, low bool) [][2]int {
 	for _, b := range bs {
 		ops = append(ops, [2]int{opInsertC, cKey1(b)})
 	}
-	if low {
-		// shrink by deleting the smallest branch bytes (the first/last occupied slots of the node change)
+	if low != 0 {
+		// shrink by deleting the smallest branch bytes (the first/last occupied slots of the node change), or the
+		// largest ones (the lanes above the fan-out keep the removed maximum)
 		sorted := append([]int(nil), bs...)
 		sort.Ints(sorted)
+		if low == 2 {
+			for i, j := 0, len(sorted)-1; i < j; i, j = i+1, j-1 {
+				sorted[i], sorted[j] = sorted[j], sorted[i]
+			}
+		}
 		for i := 0; i < n-m; i++ {
 			ops = append(ops, [2]int{opDeleteC, cKey1(sorted[i])})
 		}
@@ -241,7 +247,7 @@ func fanBase(m, from int, seed int64, variant int, low bool) [][2]int {
 
 type fanShape struct {
 	m, from int
-	low     bool
+	low     int // which siblings the shrink deletes: 0 the last inserted, 1 the smallest bytes, 2 the largest bytes
 }
 
 // fan shapes step through every growth and shrink threshold of the node classes.
@@ -249,15 +255,18 @@ func fanShapes(e *Engine, full bool) []fanShape {
 	m4 := e.constInt("maxNode4", 4)
 	m16 := e.constInt("maxNode16", 16)
 	m48 := e.constInt("maxNode48", 48)
-	out := []fanShape{{2, 0, false}, {m4 - 1, 0, false}, {m4, 0, false}, {m16, 0, false}, {m48, 0, false}, // about to grow
-		{m4, m4 + 1, false}, {2, m4 + 1, false}, // node16 shrunk back towards node4 and further
-		{13, m16 + 1, false}, {12, m16 + 1, false}, // node48 -> node16 threshold
-		{38, m48 + 1, false}, {37, m48 + 1, false}, // node256 -> node48 threshold
-		{38, m48 + 1, true}, {13, m16 + 1, true}, {m4, m4 + 1, true}, // the same, deleting the smallest bytes
+	out := []fanShape{{2, 0, 0}, {m4 - 1, 0, 0}, {m4, 0, 0}, {m16, 0, 0}, {m48, 0, 0}, // about to grow
+		{m4, m4 + 1, 0}, {2, m4 + 1, 0}, // node16 shrunk back towards node4 and further
+		{13, m16 + 1, 0}, {12, m16 + 1, 0}, // node48 -> node16 threshold
+		{38, m48 + 1, 0}, {37, m48 + 1, 0}, // node256 -> node48 threshold
+		{38, m48 + 1, 1}, {13, m16 + 1, 1}, {m4, m4 + 1, 1}, // the same, deleting the smallest bytes
+		{256, 0, 0}, // every byte value present: the uint8 fan-out counter of the node256 wraps to 0
+		{2, m16, 0}, {6, m16, 2}, // a node16 that was full (every lane written), shrunk: stale lanes above the fan-out
 	}
 	if full {
-		out = append(out, fanShape{m4 + 1, 0, false}, fanShape{m16 - 1, 0, false}, fanShape{m16 + 1, 0, false}, fanShape{m48 - 1, 0, false}, fanShape{m48 + 1, 0, false},
-			fanShape{3, m4 + 1, false}, fanShape{1, m4, false}, fanShape{m48 + 8, 0, false}, fanShape{37, m48 + 1, true}, fanShape{12, m16 + 1, true}, fanShape{3, m4 + 1, true})
+		out = append(out, fanShape{m4 + 1, 0, 0}, fanShape{m16 - 1, 0, 0}, fanShape{m16 + 1, 0, 0}, fanShape{m48 - 1, 0, 0}, fanShape{m48 + 1, 0, 0},
+			fanShape{3, m4 + 1, 0}, fanShape{1, m4, 0}, fanShape{m48 + 8, 0, 0}, fanShape{37, m48 + 1, 1}, fanShape{12, m16 + 1, 1}, fanShape{3, m4 + 1, 1},
+			fanShape{3, m16, 0}, fanShape{2, m16, 1}, fanShape{6, m16, 1}, fanShape{6, m16, 0}, fanShape{m4, m16, 2}, fanShape{9, m16, 2}, fanShape{20, m48, 2})
 	}
 	return out
 }
@@ -277,8 +286,10 @@ func fFan(c *CheckRun, kind int, nSym int, variants int, full bool) []histB {
 		for v := 0; v < nv; v++ {
 			base := fanBase(sh.m, sh.from, c.Seed, v, sh.low)
 			label := fmt.Sprintf("F-fan m=%d from=%d v=%d", sh.m, sh.from, v)
-			if sh.low {
+			if sh.low == 1 {
 				label = fmt.Sprintf("F-fan m=%d from=%d (smallest deleted) v=%d", sh.m, sh.from, v)
+			} else if sh.low == 2 {
+				label = fmt.Sprintf("F-fan m=%d from=%d (largest deleted) v=%d", sh.m, sh.from, v)
 			}
 			big := sh.m > 17 || sh.from > 17
 			if big {
@@ -289,6 +300,11 @@ func fFan(c *CheckRun, kind int, nSym int, variants int, full bool) []histB {
 					}
 				}
 				cp := someByte | 1<<30
+				if sh.m > 200 {
+					// the full 256-way node: every path re-executes 256 inserts, so only the update-free base with a concrete probe
+					out = append(out, histB{kind: kind, ops: base, probes: []int{cp}, label: label + " A", big: true, noSym: true})
+					continue
+				}
 				out = append(out, histB{kind: kind, ops: base, probes: []int{aSpec(0, 1)}, label: label + " A", big: true, noSym: true})
 				out = append(out, histB{kind: kind, ops: append(append([][2]int(nil), base...), [2]int{opInsert, aSpec(0, 1)}), probes: []int{cp}, label: label + " B", big: true})
 				out = append(out, histB{kind: kind, ops: append(append([][2]int(nil), base...), [2]int{opDelete, aSpec(0, 1)}), probes: []int{cp}, label: label + " C", big: true})
@@ -335,8 +351,10 @@ func fFanStem(c *CheckRun, kind int, full bool) []histB {
 		p  int
 	}
 	// the fan-out node holds m sibling children plus the stem key's terminator child: m+1 children
-	shapes := []st{{fanShape{m: 17}, 1}, {fanShape{m: 49}, 1}, {fanShape{m: 11, from: 17}, mp + 2}, {fanShape{m: 36, from: 49}, mp + 1}}
+	shapes := []st{{fanShape{m: 17}, 1}, {fanShape{m: 49}, 1}, {fanShape{m: 11, from: 17}, mp + 2}, {fanShape{m: 36, from: 49}, mp + 1},
+		{fanShape{m: 0, from: 5, low: 2}, 2}, {fanShape{m: 0, from: 17, low: 0}, 1}, {fanShape{m: 0, from: 49, low: 2}, mp + 1}} // every sibling deleted again, largest first: the node is left with the terminator child only
 	if full {
+		shapes = append(shapes, st{fanShape{m: 0, from: 16, low: 2}, mp + 1}, st{fanShape{m: 0, from: 5, low: 1}, 1})
 		shapes = append(shapes, st{fanShape{m: 5}, mp + 2}, st{fanShape{m: 12, from: 17}, mp}, st{fanShape{m: 37, from: 49}, mp + 2}, st{fanShape{m: 47}, mp + 3},
 			st{fanShape{m: 2, from: 5}, mp + 2}, st{fanShape{m: 17}, mp + 2}, st{fanShape{m: 49}, mp + 2}, st{fanShape{m: 1, from: 5}, mp + 1}, st{fanShape{m: 36, from: 49}, 3})
 	}
@@ -358,8 +376,20 @@ func fFanStem(c *CheckRun, kind int, full bool) []histB {
 			ops = append(ops, [2]int{opInsertC, cKeyStem(p, b)})
 		}
 		ops = append(ops, [2]int{opInsertC, cKeyStemOnly(p)})
+		del := append([]int(nil), bs...)
+		if sh.low != 0 {
+			sort.Ints(del) // deletions run from the end of del: largest first
+			if sh.low == 1 {
+				for i, j := 0, len(del)-1; i < j; i, j = i+1, j-1 {
+					del[i], del[j] = del[j], del[i]
+				}
+			}
+		}
 		for i := tot - 1; i >= sh.m; i-- {
-			ops = append(ops, [2]int{opDeleteC, cKeyStem(p, bs[i])})
+			ops = append(ops, [2]int{opDeleteC, cKeyStem(p, del[i])})
+		}
+		if sh.m == 0 {
+			ops = append(ops, [2]int{opDeleteC, cKeyStemOnly(p)}) // nothing is left below the stem
 		}
 		label := fmt.Sprintf("F-fan-stem m=%d from=%d stem=%d", sh.m, sh.from, p)
 		for _, pr := range []int{cKeyStemOnly(p) | 1<<30, aSpec(p, 1), aSpecMut(p, 1, p-1)} {
@@ -396,7 +426,7 @@ func fLongDeep(kind int, stems []int, rich bool) []histB {
 // fFanKind: fan-out bases for the other tree kinds (each kind has its own copy of Insert/Search/Delete):
 // m concrete keys produced by conc(i) that branch at one node, optionally grown to `from` first and deleted
 // down, then one symbolic update and a symbolic probe (small bases) or A/B/C patterns (big bases).
-func fFanKind(kind int, harness string, conc func(i int) int, symSpec int, shapes []fanShape) []*Scenario {
+func fFanKind(kind int, harness string, conc func(i int) int, symSpec int, shapes []fanShape, outer *int) []*Scenario {
 	var out []*Scenario
 	for _, sh := range shapes {
 		tot := sh.m
@@ -404,24 +434,52 @@ func fFanKind(kind int, harness string, conc func(i int) int, symSpec int, shape
 			tot = sh.from
 		}
 		var ops [][2]int
+		if outer != nil {
+			// a key that differs from the fan in an earlier byte: the fan-out node is not the root, so growing,
+			// shrinking or collapsing it must be written back into its parent's child slot
+			ops = append(ops, [2]int{opInsertC, *outer})
+		}
 		for i := 0; i < tot; i++ {
 			ops = append(ops, [2]int{opInsertC, conc(i)})
 		}
-		for i := tot - 1; i >= sh.m; i-- {
-			ops = append(ops, [2]int{opDeleteC, conc(i)})
+		if sh.low == 1 {
+			// the first inserted keys go: a node48 keeps holes in its low slots, the fan-out drops below the highest slot
+			for i := 0; i < tot-sh.m; i++ {
+				ops = append(ops, [2]int{opDeleteC, conc(i)})
+			}
+		} else {
+			for i := tot - 1; i >= sh.m; i-- {
+				ops = append(ops, [2]int{opDeleteC, conc(i)})
+			}
 		}
 		label := fmt.Sprintf("F-fan-kind m=%d from=%d", sh.m, sh.from)
+		if sh.low == 1 {
+			label += " (first inserted deleted)"
+		}
+		if outer != nil {
+			label += " below root"
+		}
+		// a stored key that survives the base (the last one inserted among them): probed concretely, because the
+		// symbolic probe of the table-driven kinds (collation, compound) names a new key, not a stored one
+		lastLive := conc(sh.m - 1)
+		if sh.low == 1 {
+			lastLive = conc(tot - 1)
+		}
 		var bs []histB
 		if tot > 17 {
-			bs = append(bs, histB{kind: kind, ops: ops, probes: []int{symSpec}, label: label + " A", big: true, noSym: true})
+			bs = append(bs, histB{kind: kind, ops: ops, probes: []int{symSpec, lastLive | 1<<30}, label: label + " A", big: true, noSym: true})
 			bs = append(bs, histB{kind: kind, ops: append(append([][2]int(nil), ops...), [2]int{opDelete, symSpec}), probes: []int{conc(0) | 1<<30}, label: label + " C", big: true})
 		} else {
 			if tot > 8 {
-				bs = append(bs, histB{kind: kind, ops: ops, probes: []int{symSpec}, label: label + " A", big: true, noSym: true})
+				bs = append(bs, histB{kind: kind, ops: ops, probes: []int{symSpec, lastLive | 1<<30}, label: label + " A", big: true, noSym: true})
 			}
-			bs = append(bs, histB{kind: kind, ops: append(append([][2]int(nil), ops...), [2]int{opInsert, symSpec}), probes: []int{symSpec}, label: label + " S"})
+			if outer != nil && tot > 8 {
+				goto emit // below the root the wide bases keep their update-free variant only
+			}
+			bs = append(bs, histB{kind: kind, ops: append(append([][2]int(nil), ops...), [2]int{opInsert, symSpec}), probes: []int{symSpec, lastLive | 1<<30}, label: label + " S"})
 			bs = append(bs, histB{kind: kind, ops: append(append([][2]int(nil), ops...), [2]int{opDelete, symSpec}), probes: []int{symSpec}, label: label + " S"})
 		}
+	emit:
 		for _, b := range bs {
 			sc := b.scn()
 			sc.Harness = harness
@@ -432,7 +490,7 @@ func fFanKind(kind int, harness string, conc func(i int) int, symSpec int, shape
 	return out
 }
 
-var kindFanShapes = []fanShape{{m: 5}, {m: 17}, {m: 3, from: 5}, {m: 12, from: 17}, {m: 49}, {m: 37, from: 49}}
+var kindFanShapes = []fanShape{{m: 5}, {m: 17}, {m: 3, from: 5}, {m: 12, from: 17}, {m: 49}, {m: 17, from: 19, low: 1}, {m: 37, from: 49}}
 
 // fanKinds: the non byte-string kinds with their concrete key generators.
 func fanKinds(c *CheckRun, mask int, full bool) []*Scenario { return fanKindsOpt(c, mask, full, false) }
@@ -441,11 +499,17 @@ func fanKinds(c *CheckRun, mask int, full bool) []*Scenario { return fanKindsOpt
 func fanKindsOpt(c *CheckRun, mask int, full bool, cheapOnly bool) []*Scenario {
 	shapes := kindFanShapes
 	if !full {
-		shapes = kindFanShapes[:5]
+		shapes = kindFanShapes[:6]
 	}
 	var out []*Scenario
+	var curShapes []fanShape
+	var curOuter *int
 	add := func(kind int, harness string, conc func(i int) int, sym int) {
-		for _, s := range fFanKind(kind, harness, conc, sym, shapes) {
+		sh := shapes
+		if curShapes != nil {
+			sh = curShapes
+		}
+		for _, s := range fFanKind(kind, harness, conc, sym, sh, curOuter) {
 			if cheapOnly && (strings.Contains(s.Label, " C/") || (strings.Contains(s.Label, " S/") && len(s.Params) > 5+2*9)) {
 				continue // bases of more than 8 keys keep only their update-free variant
 			}
@@ -464,13 +528,35 @@ func fanKindsOpt(c *CheckRun, mask int, full bool, cheapOnly bool) []*Scenario {
 	add(kindI8, "hHist", func(i int) int { return int(int8(spread(i))) }, 0)
 	// uint16: fan on the second byte below a one-byte path
 	add(kindU16, "hHist", func(i int) int { return 0x1200 | spread(i) }, 0)
+	// float32 / int64: fan on an inner byte; the quick tier keeps the node48 and node256 bases only
+	if !full {
+		curShapes = []fanShape{{m: 17}, {m: 49}, {m: 17, from: 19, low: 1}}
+	}
+	add(kindF32, "hHist", func(i int) int { return 0x3f800000 | spread(i)<<8 }, 0)
 	if full {
-		add(kindF32, "hHist", func(i int) int { return 0x3f800000 | spread(i)<<8 }, 0)
 		add(kindI64, "hHist", func(i int) int { return spread(i) - 0x80 }, 0)
 	}
+	curShapes = nil
 	// collation (generated strings with concrete collation keys) and compound table codec
 	add(14, "hColl", func(i int) int { return 8 + i }, cSpec(0, 2))
 	add(17, "hCompound", func(i int) int { return 8 + i }, cSpec(0, 2))
+	// the same fans below the root (one more key that differs in an earlier byte), one kind per generated copy
+	// and the collation tree: node4 collapse, 16->4, 48->16 (thorough: 256->48) of a non-root node
+	curShapes = []fanShape{{m: 1, from: 2}, {m: 3, from: 5}, {m: 12, from: 17}}
+	if full {
+		curShapes = append(curShapes, fanShape{m: 37, from: 49}, fanShape{m: 5}, fanShape{m: 17})
+	}
+	outer := func(v int) *int { return &v }
+	curOuter = outer(0x3400)
+	add(kindU16, "hHist", func(i int) int { return 0x1200 | spread(i) }, 0)
+	curOuter = outer(1 << 40)
+	add(kindI64, "hHist", func(i int) int { return spread(i) - 0x80 }, 0)
+	curOuter = outer(0x40400000)
+	add(kindF32, "hHist", func(i int) int { return 0x3f800000 | spread(i)<<8 }, 0)
+	curOuter = outer(71) // table entries 71 carry an encoding / collation key with another first byte
+	add(14, "hColl", func(i int) int { return 8 + i }, cSpec(0, 2))
+	add(17, "hCompound", func(i int) int { return 8 + i }, cSpec(0, 2))
+	curShapes, curOuter = nil, nil
 	if full {
 		add(16, "hColl", func(i int) int { return 8 + i }, cSpec(3, 2))
 	}
